@@ -329,6 +329,68 @@ def base_pe(pe64=False):
     return f
 
 
+# ------------------------------------------------------------------ "minimum size before a header is parsed"
+def synth_elf(is64, be, with_tables=True):
+    """a minimal ELF: header, one program header, one section header"""
+    e = ">" if be else "<"
+    ident = b"\x7fELF" + bytes([2 if is64 else 1, 2 if be else 1, 1, 0]) + bytes(8)
+    if is64:
+        ehs, phs, shs = 64, 56, 64
+        hdr = ident + struct.pack(e + "HHIQQQIHHHHHH", 2, 62, 1, 0x400000 + ehs, ehs if with_tables else 0, ehs + phs if with_tables else 0, 0,
+                                  ehs, phs, 1 if with_tables else 0, shs, 1 if with_tables else 0, 0)
+        ph = struct.pack(e + "IIQQQQQQ", 1, 5, 0, 0x400000, 0x400000, ehs + phs + shs, ehs + phs + shs, 0x1000)
+        sh = struct.pack(e + "IIQQQQIIQQ", 0, 3, 0, 0, ehs, 8, 0, 0, 1, 0)
+    else:
+        ehs, phs, shs = 52, 32, 40
+        hdr = ident + struct.pack(e + "HHIIIIIHHHHHH", 2, 3, 1, 0x8048000 + ehs, ehs if with_tables else 0, ehs + phs if with_tables else 0, 0,
+                                  ehs, phs, 1 if with_tables else 0, shs, 1 if with_tables else 0, 0)
+        ph = struct.pack(e + "IIIIIIII", 1, 0, 0x8048000, 0x8048000, ehs + phs + shs, ehs + phs + shs, 5, 0x1000)
+        sh = struct.pack(e + "IIIIIIIIII", 0, 3, 0, 0, ehs, 8, 0, 0, 1, 0)
+    return hdr + (ph + sh if with_tables else b"")
+
+
+def elf_header_cases():
+    """every (class, byte order): the minimal file cut at every length from 16 bytes to just past its tables"""
+    out = []
+    for is64 in (False, True):
+        for be in (False, True):
+            for tables in (True, False):
+                f = synth_elf(is64, be, tables)
+                top = len(f) + 2 if tables else 72
+                for n in range(16, top + 1):
+                    g = f[:n] if n <= len(f) else f + b"\xcc" * (n - len(f))
+                    out.append(("elf-headers", "synthetic ELF%d %s-endian %s, %d bytes long (header is %d bytes)"
+                                % (64 if is64 else 32, "big" if be else "little", "with one program and one section header" if tables else "header only",
+                                   n, 64 if is64 else 52), g))
+    return out
+
+
+def pe_header_cases():
+    """the synthetic DLLs cut at every length across the DOS header, the NT headers (32/64) and the section table; and with e_lfanew
+    moved so that the NT headers straddle the end of the file"""
+    out = []
+    for pe64 in (False, True):
+        f = base_pe(pe64)
+        nt = 0x40
+        end = nt + 24 + (0xF0 if pe64 else 0xE0) + 40
+        for n in range(56, end + 10):
+            out.append(("pe-headers", "synthetic %s cut to %d bytes (DOS header 64, NT headers at 0x40 are %d bytes, section table ends at %d)"
+                        % ("PE32+" if pe64 else "PE32", n, 24 + (0xF0 if pe64 else 0xE0), end), f[:n]))
+        nth = f[nt:end]
+        L = 0x300
+        for k in sorted({0, 1, 2, 3, 4, 5, 6, 8, 23, 24, 25, 26, 27, 28, 24 + 95, 24 + 96, 24 + 97, 24 + 111, 24 + 112, 24 + 113, 24 + 0xE0 - 1, 24 + 0xE0, 24 + 0xE0 + 1,
+                         24 + 0xF0 - 1, 24 + 0xF0, 24 + 0xF0 + 1, len(nth) - 41, len(nth) - 40, len(nth) - 39, len(nth) - 1, len(nth), len(nth) + 1}):
+            g = bytearray(f[:0x40] + b"\0" * (L - 0x40) + nth)
+            g[0x3c:0x40] = w32(L - k)
+            g[L - k:L - k + len(nth)] = nth
+            out.append(("pe-headers", "synthetic %s: e_lfanew = file size - %d (the NT headers straddle the end of the file)" % ("PE32+" if pe64 else "PE32", k), bytes(g[:L])))
+        for v, vn in ((0xffffffff, "0xffffffff"), (0x7fffffff, "0x7fffffff"), (len(f), "file size"), (len(f) - 1, "file size - 1"), (0x3c, "0x3c (itself)"), (0, "0")):
+            g = bytearray(f)
+            g[0x3c:0x40] = w32(v)
+            out.append(("pe-headers", "synthetic %s: e_lfanew = %s" % ("PE32+" if pe64 else "PE32", vn), bytes(g)))
+    return out
+
+
 def pe_cases(rng, quick):
     """[(family, description, file bytes)] ; the quick tier keeps every export case and a stratified part of the others"""
     ex = exports_family()
@@ -346,7 +408,7 @@ def pe_cases(rng, quick):
         other = [c for c in ex if c not in keep]
         rng.shuffle(other)
         ex = keep + other[:max(0, 520 - len(keep))]
-    return ex + rest
+    return ex + rest + pe_header_cases()
 
 
 # ------------------------------------------------------------------ ELF: tables copied to the end of a real sample
